@@ -56,7 +56,9 @@ def opRun (j : Json) : R Json := do
       let chainOk := if comp.length == 1 then (match comp with | [v] => tag v == some (lo, 0) | _ => false)
                      else chainSpecB nb comp (soOf t) tag lo
       let fileOk := specWritten t comp tag withSeq tout
-      (lo + n, outs ++ [obj [("name", js p.1), ("written", jb true), ("linear", jb linear), ("aps", jn naps),
+      let maxBo := (comp.filterMap (fun v => (tag v).map (·.1))).foldl max (lo - 1)
+      let _ := n
+      (maxBo + 1, outs ++ [obj [("name", js p.1), ("written", jb true), ("linear", jb linear), ("aps", jn naps),
                              ("chain_ok", jb chainOk), ("file_ok", jb fileOk), ("lo", ji lo), ("single_sn", jb singleSN),
                              ("ok", jb (linear && chainOk && fileOk)),
                              ("roles", jl (fun v => Json.arr #[js v, js (if ch.aps.contains v || comp.length == 1 then "orange" else "blue")]) comp)]])
